@@ -17,12 +17,16 @@ _config_c = REG.contracts['Config.parse_buffer_config']
 _config_c.inline = True      # two constructor calls, no loop: callers (Buffer.__init__) execute it
 
 
-def tier_inv(v, sv):
-    return [('capacity-positive', v.total_capacity.t > 0)]
+def hot_inv(v, sv):
+    return [('capacity-positive', v.total_capacity.t > 0), ('configured-rate-positive', v.max_ingest_data_rate.t > 0)]
 
 
-REG.invariants['HotBuffer'] = tier_inv
-REG.invariants['ColdBuffer'] = tier_inv
+def cold_inv(v, sv):
+    return [('capacity-positive', v.total_capacity.t > 0), ('configured-rate-positive', v.max_data_rate.t > 0)]
+
+
+REG.invariants['HotBuffer'] = hot_inv
+REG.invariants['ColdBuffer'] = cold_inv
 
 
 def size_of(sv, ob):
@@ -330,8 +334,7 @@ def slower_rate(s):
 def _move_req(src_tier):
     def req(c):
         s = c.o.self
-        return [('rates-positive', z3.And(hot(s).max_ingest_data_rate.t > 0, cold(s).max_data_rate.t > 0)),
-                ('no-other-move-in-progress', z3.And(slot(hot(s)) == 0, slot(cold(s)) == 0)),
+        return [('assume:no-other-move-in-progress', z3.And(slot(hot(s)) == 0, slot(cold(s)) == 0)),
                 ('stored-observations-are-objects', Q([('o', I)], lambda o: z3.Implies(
                     src_tier(s).observations['stored'].count(o) > 0, o > 0)))]
     return req
@@ -427,3 +430,20 @@ def _lemma_ceil_steps():
 
 
 REG.lemmas.append(('C18-move-completes-after-ceil-size-over-rate-steps', ['C18'], _lemma_ceil_steps))
+
+
+# ---- Buffer.run: the per-timestep tiering loop ----------------------------------------------------------------------
+def _run_y0(c):
+    return [('one-step-wait', c.n['_ydelay'].t == 1)]
+
+
+REG.contract('Buffer.run', world=BW, yields={0: _run_y0},
+             requires=lambda c: [('stored-observations-are-objects', Q([('o', I)], lambda o: z3.Implies(z3.Or(
+                 hot(c.o.self).observations['stored'].count(o) > 0, cold(c.o.self).observations['stored'].count(o) > 0), o > 0)))],
+             modifies=['self.events'], props=['C07', 'C13'],
+             note="the moves it spawns are verified separately (Buffer.move_hot_to_cold / move_cold_to_hot)")
+
+REG.contract('Buffer.project_buffer_capacity', world=BW, params={'obs': 'Observation'}, fix={'b': 0},
+             ensures=lambda c: [('exact', c.result.t == ((hot(c.o.self).total_capacity.t - hot(c.o.self).current_capacity.t
+                                                          + c.o.obs.total_data_size.t) / hot(c.o.self).total_capacity.t < z3.RealVal('0.6')))],
+             result='bool', props=['C07'])
